@@ -305,8 +305,15 @@ impl ProofGraph {
             if changed && !node.valid {
                 self.stats.invalidations += 1;
 
-                // Get dependents and propagate recursively
-                let further_deps = node.dependents.clone();
+                // Get dependents from the reverse dependency index and propagate
+                // recursively. `node.dependents` only knows dependents that were inserted
+                // after this node existed, so it misses dependents inserted before their
+                // premise; `dependencies` records every edge regardless of insertion order.
+                let further_deps = self
+                    .dependencies
+                    .get(dependent_handle)
+                    .cloned()
+                    .unwrap_or_default();
                 for further_dep in further_deps {
                     self.propagate_invalidation(&further_dep, dependent_handle);
                 }
